@@ -33,7 +33,7 @@ LEVEL_NOTE = (
     "the reference filter evaluator of vlib/oracle.py, and that a new Project object models a new session."
 )
 RULE = (
-    "Op lists <=40 over {init(k), remove(k), rekey(k->k'), update_cache, restart, delete_cache, observe}, universe "
+    "Op lists <=40 over {init(k), init(k) by another session, remove(k), rekey(k->k') by item assignment / whole assignment / update_statepoint (unchanged key re-typed 1 -> 1.0), update_cache, restart, delete_cache, observe}, universe "
     "{a in 0,1,2.5,-3} x {b in 'x',{'n':1}}, 6 filters per case from a pool of 14 (sp-only and doc-including); re-key by "
     "single item assignment through a handle opened by state point or by id; plus all sequences of length<=3 (quick) / <=4 "
     "(thorough) over 9 mutating symbols (2 jobs), each run on an empty project and behind the prefix [init, init, update_cache, "
@@ -43,6 +43,7 @@ RULE = (
 CLASSES = [
     "stale_superset", "stale_subset", "fresh_session_update", "same_session_update", "cache_deleted",
     "rekey_after_cache", "empty_workspace_update", "rekey_collision", "update_rewrites", "update_noop",
+    "created_by_other_session", "rekey_whole_sp_retyped_key",
 ]
 ASSUMPTIONS = [
     "only existing jobs are opened by id (a cached id of a removed job may legitimately be re-opened)",
@@ -244,6 +245,27 @@ class Sim:
             self.model[i] = {"sp": copy.deepcopy(sp), "doc": doc_for(k)}
             self.mutated()
 
+    def op_ext_init(self, op):
+        """Another session (a second Project object, as another process would have) creates the job; the running
+        session's Project object learns of it only from the workspace."""
+        k = int(op.get("k", 0)) % NU
+        sp = UNIVERSE[k]
+        i = uid(k)
+        try:
+            other = self.signac.Project(self.root)
+            job = other.open_job(copy.deepcopy(sp))
+            job.init()
+            if i not in self.model:
+                job.doc.update(doc_for(k))
+        except Exception as e:
+            self.mm("op_raises", "init of %r in another session raised %s: %s" % (sp, type(e).__name__, e))
+            self.diverged = True
+            return
+        self.cl.add("created_by_other_session")
+        if i not in self.model:
+            self.model[i] = {"sp": copy.deepcopy(sp), "doc": doc_for(k)}
+            self.mutated()
+
     def op_remove(self, op):
         k = int(op.get("k", 0)) % NU
         i = uid(k)
@@ -275,9 +297,26 @@ class Sim:
         new_sp[key] = copy.deepcopy(want[key])
         new = oracle.job_id(new_sp)
         collide = new in self.model
+        how = op.get("how") if op.get("how") in ("assign", "update_statepoint") else "setitem"
+        passed = copy.deepcopy(new_sp)
+        if how == "update_statepoint" or (how == "assign" and op.get("read_first")):
+            # whole-state-point routes through a handle that has loaded its state point: the unchanged key is handed
+            # over as an equal value of another JSON type (1 -> 1.0); signac keeps the value the job has, so the job
+            # lands on new_sp all the same. (A handle that has not loaded anything takes the mapping as it is.)
+            other = "b" if key == "a" else "a"
+            if isinstance(passed[other], int) and not isinstance(passed[other], bool):
+                passed[other] = float(passed[other])
+                self.cl.add("rekey_whole_sp_retyped_key")
         try:
             job = self.project.open_job(id=old) if op.get("by") == "id" else self.project.open_job(copy.deepcopy(src))
-            job.sp[key] = copy.deepcopy(want[key])
+            if op.get("read_first"):
+                job.statepoint()
+            if how == "assign":
+                job.statepoint = passed
+            elif how == "update_statepoint":
+                job.update_statepoint(passed, overwrite=True)
+            else:
+                job.sp[key] = copy.deepcopy(want[key])
             outcome = "ok"
         except DestinationExistsError:
             outcome = "DestinationExistsError"
@@ -538,13 +577,14 @@ def fd(**kw):
 
 INIT = fd(op="init", k=KS)
 REMOVE = fd(op="remove", k=KS, by=BY)
-REKEY = fd(op="rekey", k=KS, to=K, by=BY)
+REKEY = fd(op="rekey", k=KS, to=K, by=BY, how=st.sampled_from(["setitem", "setitem", "assign", "update_statepoint"]), read_first=st.booleans())
+EXT = fd(op="ext_init", k=KS)
 UPDATE = fd(op="update_cache")
 RESTART = fd(op="restart")
 DELETE = fd(op="delete_cache")
 OBSERVE = fd(op="observe")
-MUT = st.one_of(INIT, INIT, REMOVE, REKEY, REKEY)
-ANY = st.one_of(INIT, INIT, INIT, REMOVE, REMOVE, REKEY, REKEY, REKEY, UPDATE, UPDATE, UPDATE, RESTART, RESTART, RESTART, DELETE, OBSERVE, OBSERVE)
+MUT = st.one_of(INIT, INIT, EXT, REMOVE, REKEY, REKEY)
+ANY = st.one_of(INIT, INIT, INIT, EXT, REMOVE, REMOVE, REKEY, REKEY, REKEY, UPDATE, UPDATE, UPDATE, RESTART, RESTART, RESTART, DELETE, OBSERVE, OBSERVE)
 
 
 @st.composite
@@ -600,6 +640,12 @@ CONSTRUCTED = [
                                               {"op": "rekey", "k": 0, "to": 2, "by": "id"}, {"op": "rekey", "k": 0, "to": 1, "by": "id"},
                                               {"op": "rekey", "k": 7, "to": 5, "by": "sp"}, {"op": "observe"}, {"op": "restart"}, {"op": "observe"},
                                               {"op": "update_cache"}, {"op": "observe"}]},
+    # a job re-keyed through a handle opened by id; its old id is then created again by another session
+    {"filters": F6, "ops": [{"op": "init", "k": 0}, {"op": "init", "k": 3}, {"op": "restart"}, {"op": "rekey", "k": 0, "to": 4, "by": "id", "read_first": True},
+                            {"op": "ext_init", "k": 0}, {"op": "observe"}, {"op": "update_cache"}, {"op": "observe"}, {"op": "restart"}, {"op": "observe"}]},
+    # re-key by assignment / update_statepoint with the unchanged key handed over as 1.0 for 1
+    {"filters": F6, "ops": [{"op": "init", "k": 2}, {"op": "init", "k": 9}, {"op": "rekey", "k": 2, "to": 3, "by": "sp", "how": "assign", "read_first": True},
+                            {"op": "observe"}, {"op": "rekey", "k": 9, "to": 8, "by": "id", "how": "update_statepoint"}, {"op": "update_cache"}, {"op": "observe"}]},
     # cache_deleted, empty_workspace_update
     {"filters": [0, 12, 13, 7, 8, 9], "ops": [{"op": "update_cache"}, {"op": "init", "k": 4}, {"op": "update_cache"}, {"op": "delete_cache"}, {"op": "restart"},
                                                {"op": "observe"}, {"op": "remove", "k": 4, "by": "sp"}, {"op": "update_cache"}, {"op": "restart"}, {"op": "update_cache"}]},
